@@ -25,6 +25,7 @@ fn main() {
     let ids: serde_json::Value =
         serde_json::from_slice(&std::fs::read(&a[5]).unwrap()).unwrap();
     let server_dir_arg: Option<String> = ids.get("server_dir").and_then(|v| v.as_str()).map(|s| s.to_string());
+    let diff_file_arg: Option<String> = ids.get("diff_file").and_then(|v| v.as_str()).map(|s| s.to_string());
     let vid = |k: &str| -> VaultId { ids[k].as_str().unwrap().parse().unwrap() };
     let sid = |k: &str| -> SecretId { ids[k].as_str().unwrap().parse().unwrap() };
     let rt = tokio::runtime::Builder::new_current_thread()
@@ -107,6 +108,18 @@ fn main() {
                         )),
                     )
                     .await?;
+                }
+                "force_merge" => {
+                    use sos_core::events::{patch::{FolderDiff, Patch}, EventRecord};
+                    use sos_sync::{ForceMerge, MergeOutcome};
+                    let v: serde_json::Value = serde_json::from_slice(&std::fs::read(diff_file_arg.clone().unwrap())?)?;
+                    let mut recs: Vec<EventRecord> = vec![];
+                    for r in v["records"].as_array().unwrap() {
+                        recs.push(sos_core::decode(&hex::decode(r.as_str().unwrap())?).await?);
+                    }
+                    let checkpoint: sos_core::commit::CommitProof = sos_core::decode(&hex::decode(v["checkpoint"].as_str().unwrap())?).await?;
+                    let diff = FolderDiff { patch: Patch::new(recs), checkpoint, last_commit: None };
+                    acc.force_merge_folder(&default, diff, &mut MergeOutcome::default()).await?;
                 }
                 "sync_pull" | "sync_merge" => {
                     // handled below (needs the account moved into a device)
